@@ -242,6 +242,16 @@ def check_kernel(case):
         seen_sig.add((clause, site))
         fails.append({"clause": clause, "site": site, "detail": detail})
 
+    def rcall(clause, site, f, *args):
+        """Call a repository kernel; an exception it raises is a finding, not a harness error."""
+        try:
+            return True, f(*args)
+        except Exception as ex:
+            fail(clause, site + " raises", exception="%s: %s" % (type(ex).__name__, ex),
+                 args=[a.tolist() if hasattr(a, "tolist") else a for a in args[:1]] +
+                      [int(a) for a in args if isinstance(a, (int, np.integer))])
+            return False, None
+
     schemes = SCHEMES + D.grid_schemes(rng, 4)
     for _t in range(case["tables"]):
         d = D.random_dataset(rng, case["nmax"], 5, n_min=1)
@@ -274,7 +284,11 @@ def check_kernel(case):
                     change = np.zeros(n + 2, dtype=np.float64)
                     add = np.zeros(n + 3, dtype=np.float64)
                     be = vec[e]
-                    alone = int(cdc(r, np.int32(e), m1d, np.int32(be), change, add, np.int32(n)))
+                    ok, alone = rcall("C08.delta.arrays", "_compute_delta_costs (%s)" % mode, cdc, r, np.int32(e),
+                                      m1d, np.int32(be), change, add, np.int32(n))
+                    if not ok:
+                        continue
+                    alone = int(alone)
                     here = dict(ctx, vector=vec, element=e)
                     if list(r) != vec or alone != int(vec.count(be) == 1):
                         fail("C08.delta.arrays", "_compute_delta_costs (%s)" % mode, alone=alone,
@@ -310,16 +324,21 @@ def check_kernel(case):
                              prefix_sum=lem[2], oracle_delta=lem[3], change=list(change), add=list(add), **here)
                     # search + move: join
                     ch2 = change.copy()
-                    to = int(scb(np.int32(be), ch2, np.int32(maxid)))
-                    if to >= 0:
+                    ok, to = rcall("C08.search.change", "_search_to_change_bucket (%s)" % mode, scb, np.int32(be),
+                                   ch2, np.int32(maxid))
+                    to = int(to) if ok else None
+                    if not ok:
+                        pass
+                    elif to >= 0:
                         if to == be or to > maxid or d_join[to] >= -THRESH + EPS or abs(ch2[to] - d_join[to]) > EPS:
                             fail("C08.search.change", "_search_to_change_bucket (%s)" % mode, result=to,
                                  array_value=float(ch2[to]) if to < len(ch2) else None,
                                  oracle_delta=d_join.get(to), **here)
                         else:
                             r2 = np.array(vec, dtype=np.int32)
-                            chb(r2, np.int32(n), np.int32(e), np.int32(be), np.int32(to), np.int32(alone))
-                            if [int(x) for x in r2] != dense(join_target(vec, e, to)):
+                            ok, _ = rcall("C08.move.change", "_change_bucket (%s)" % mode, chb, r2, np.int32(n),
+                                          np.int32(e), np.int32(be), np.int32(to), np.int32(alone))
+                            if ok and [int(x) for x in r2] != dense(join_target(vec, e, to)):
                                 fail("C08.move.change", "_change_bucket (%s)" % mode, to=to, alone=alone,
                                      got=[int(x) for x in r2], expected=dense(join_target(vec, e, to)), **here)
                     elif d_join and min(d_join.values()) < -THRESH - EPS:
@@ -327,16 +346,21 @@ def check_kernel(case):
                              oracle_deltas={str(k): v for k, v in d_join.items()}, **here)
                     # search + move: new bucket
                     ad2 = add.copy()
-                    to = int(sab(np.int32(be), ad2, np.int32(maxid)))
-                    if to >= 0:
+                    ok, to = rcall("C08.search.add", "_search_to_add_bucket (%s)" % mode, sab, np.int32(be), ad2,
+                                   np.int32(maxid))
+                    to = int(to) if ok else None
+                    if not ok:
+                        pass
+                    elif to >= 0:
                         if to > maxid + 1 or d_new[to] >= -THRESH + EPS or abs(ad2[to] - d_new[to]) > EPS:
                             fail("C08.search.add", "_search_to_add_bucket (%s)" % mode, result=to,
                                  array_value=float(ad2[to]) if to < len(ad2) else None,
                                  oracle_delta=d_new.get(to), **here)
                         else:
                             r2 = np.array(vec, dtype=np.int32)
-                            adb(r2, np.int32(n), np.int32(e), np.int32(be), np.int32(to), np.int32(alone))
-                            if [int(x) for x in r2] != dense(new_target(vec, e, to)):
+                            ok, _ = rcall("C08.move.add", "_add_bucket (%s)" % mode, adb, r2, np.int32(n),
+                                          np.int32(e), np.int32(be), np.int32(to), np.int32(alone))
+                            if ok and [int(x) for x in r2] != dense(new_target(vec, e, to)):
                                 fail("C08.move.add", "_add_bucket (%s)" % mode, to=to, alone=alone,
                                      got=[int(x) for x in r2], expected=dense(new_target(vec, e, to)), **here)
                     elif min(d_new.values()) < -THRESH - EPS:
@@ -348,10 +372,15 @@ def check_kernel(case):
                 evals += 1
                 r = np.array(vec, dtype=np.int32)
                 if mode == "compiled":
-                    delta = float(mod._improve_one_ranking(r, m1d, np.int32(n)))
+                    ok, delta = rcall("C08.sweep", "_improve_one_ranking (compiled)", mod._improve_one_ranking, r, m1d,
+                                      np.int32(n))
                 else:
                     with _py_mode():
-                        delta = float(mod._improve_one_ranking.py_func(r, m1d, n))
+                        ok, delta = rcall("C08.sweep", "_improve_one_ranking (py_func)",
+                                          mod._improve_one_ranking.py_func, r, m1d, n)
+                if not ok:
+                    continue
+                delta = float(delta)
                 after = [int(x) for x in r]
                 results[mode] = (after, delta)
                 site = "_improve_one_ranking (%s)" % mode
@@ -446,14 +475,19 @@ def guarded(fn, case, prop, site):
             os.kill(pid, signal.SIGKILL)
         except ProcessLookupError:
             pass
+        status = 0
         try:
-            os.waitpid(pid, 0)
+            status = os.waitpid(pid, 0)[1]
         except ChildProcessError:
             pass
     if timed_out:
         _GUARD["timeouts"] += 1
         return {"fails": [{"clause": prop + ".terminates", "site": site,
                            "detail": "no answer within %d s (the case normally takes well under 1 s)" % limit}],
+                "key": None, "evals": 1}
+    if not buf and os.WIFSIGNALED(status):
+        return {"fails": [{"clause": prop + ".terminates", "site": site.replace("does not return", "dies"),
+                           "detail": "the process running the case was killed by signal %d" % os.WTERMSIG(status)}],
                 "key": None, "evals": 1}
     if not buf:
         raise RuntimeError("guarded child died without an answer")
